@@ -459,6 +459,16 @@ func c02ParamSets(tier string) (ps []c02Params, d int) {
 			{Kind: "grep", Files: []int{2}, Glob: true, CatLimit: 2, Max: 1, Refused: true, D: 1},
 		}, 2
 	}
+	// compressed files / unterminated last lines, slow disks and uniformly slow consumers (as in the quick tier, more of them)
+	for _, enc := range []string{"", "gz", "zst"} {
+		for _, nonl := range []bool{false, true} {
+			for _, rd := range []int{1600, 3100, 5200} {
+				ps = append(ps, c02Params{Kind: "cat", Files: []int{2}, CatLimit: 2, ReadDelayMs: rd, Enc: enc, NoNL: nonl, D: 1})
+			}
+			ps = append(ps, c02Params{Kind: "cat", Files: []int{900}, CatLimit: 2, PaceMs: 10, Enc: enc, NoNL: nonl, D: -1},
+				c02Params{Kind: "grep", Files: []int{1000}, Glob: true, CatLimit: 1, PaceMs: 12, Enc: enc, NoNL: nonl, D: -1})
+		}
+	}
 	for _, files := range [][]int{{0}, {1}, {2}, {0, 1}, {1, 0}, {1, 2}, {2, 2}, {0, 1, 2}, {1, 1, 1}} {
 		for _, lim := range []int{1, 2} {
 			ps = append(ps, c02Params{Kind: "cat", Files: files, CatLimit: lim})
